@@ -8,6 +8,8 @@ import (
 
 	"github.com/trustbloc/sidetree-core-go/pkg/api/operation"
 	"github.com/trustbloc/sidetree-core-go/pkg/api/protocol"
+	"github.com/trustbloc/sidetree-core-go/pkg/dochandler"
+	"github.com/trustbloc/sidetree-core-go/pkg/processor"
 	"github.com/trustbloc/sidetree-core-go/pkg/versions/1_0/operationparser"
 
 	"verif/harness/internal/emit"
@@ -224,6 +226,36 @@ func runC10(c *ctx) error {
 						}
 						runParserCase(r, g, cfg, mode, label, req, originOK)
 					}
+				}
+			}
+		}
+	}
+	// the document handler validates under the protocol version the caller names (ProcessOperation's second
+	// argument), not under whatever is current: two versions that differ in one limit, both directions
+	for di := 0; di < 4; di++ {
+		d := world.NewDID(kp, tb, rng, world.SHA256)
+		req := d.Create.Request
+		for _, dir := range []string{"old-strict", "new-strict"} {
+			strict, lax := base, base
+			strict.MaxOperationSize = uint(len(req) - 1)
+			lax.MaxOperationSize = uint(len(req) + 100)
+			pOld, pNew := strict, lax
+			if dir == "new-strict" {
+				pOld, pNew = lax, strict
+			}
+			pOld.GenesisTime, pNew.GenesisTime = 0, 100
+			pc := &world.Client{Versions: []*world.Version{world.NewVersion("old", pOld, world.VersionOpts{}), world.NewVersion("new", pNew, world.VersionOpts{})}}
+			proc := processor.New("verif", world.EmptyStore{}, pc)
+			dh := dochandler.New("did:sidetree", nil, pc, world.NoopWriter{}, proc, world.NoopMetrics{})
+			for _, ver := range []uint64{0, 100} {
+				var err error
+				pan := guard(func() { _, err = dh.ProcessOperation(req, ver) })
+				wantReject := (ver == 0) == (dir == "old-strict")
+				r.Count("intake_named_version", fmt.Sprintf("%s/version=%d/rejected=%v", dir, ver, err != nil))
+				if pan != "" || (err != nil) != wantReject {
+					r.Direct = append(r.Direct, out.Direct{Oracle: "intake_validates_under_the_named_protocol_version",
+						What: fmt.Sprintf("%s, ProcessOperation(create of %d bytes, version %d): err=%v panic=%q, expected rejected=%v", dir, len(req), ver, err, pan, wantReject),
+						Case: map[string]interface{}{"direction": dir, "version": ver, "request": string(req)}})
 				}
 			}
 		}
